@@ -44,17 +44,24 @@ fn to_emmyrc_json(config: &FlattenConfigObject) -> Value {
     for (k, v) in &config.config {
         let keys: Vec<&str> = k.split('.').collect();
         let mut current = &mut emmyrc;
-        for i in 0..keys.len() {
-            let key = keys[i];
-            if i == keys.len() - 1 {
-                current[key] = v.clone();
-            } else {
-                current = current
-                    .as_object_mut()
-                    .expect("always an object")
-                    .entry(key.to_string())
-                    .or_insert(Value::Object(Default::default()));
+        // A key can be both a value and a prefix of another key ({"a": 1, "a.b": 2}). The more
+        // specific key wins, whatever the (hash) order of the two entries is.
+        for (i, key) in keys.iter().enumerate() {
+            if !current.is_object() {
+                *current = Value::Object(Default::default());
             }
+            let Some(map) = current.as_object_mut() else {
+                break;
+            };
+            if i == keys.len() - 1 {
+                if !matches!(map.get(*key), Some(Value::Object(_))) {
+                    map.insert(key.to_string(), v.clone());
+                }
+                break;
+            }
+            current = map
+                .entry(key.to_string())
+                .or_insert_with(|| Value::Object(Default::default()));
         }
     }
     emmyrc
